@@ -52,7 +52,7 @@ def run(ctx):
     raglib.locale_independent(ctx, A, obsA, 'history', 'array-history')
     raglib.locale_independent(ctx, G, obsG, 'rhistory', 'ragged-history')
     # metadata changed through handles that are not kept
-    T = [dict(kind=k, how=h) for k in ('Array', 'RaggedArray') for h in ('oneliner', 'helper', 'meta_rplus')]
+    T = [dict(kind=k, how=h) for k in ('Array', 'RaggedArray') for h in ('oneliner', 'helper', 'meta_rplus', 'failing_update')]
     for case, ob in zip(T, ctx.run_impl(T, 'temp_handle')):
         key = dict(scenario='metadata through a temporary handle', **case)
         if isinstance(ob, dict):
